@@ -248,7 +248,7 @@ def run(ctx):
                        'apply_unitaries on the caller\'s own args with a non-raising default is dominated by a check that every operation has a unitary')
     ctx.rule('C04.b3', 'no give-up after a partial in-place application: inside cirq.protocols, apply_unitaries(ops, qubits, <the function\'s own args>, <default>) '
              '- which applies the operations one by one to args.target_tensor and returns the default at the first non-unitary one, without rolling back - '
-             'is only reached after `all(has_unitary(op) for op in ops)`; callers that fall back to another strategy would otherwise continue on a corrupted state', floor=1, style='MPT')
+             'is only reached after `all(has_unitary(op) for op in ops)`; callers that fall back to another strategy would otherwise continue on a corrupted state', floor=2, style='MPT')
     pm = repo.module('cirq-core/cirq/protocols/apply_unitary_protocol.py')
     n_sites = 0
     for fname, f in pm.defs.items():
@@ -278,6 +278,19 @@ def run(ctx):
                    '(DensityMatrixSimulator on a two-qubit PauliMeasurementGate then fails with NaN probabilities)', pm.rel, c.lineno)
     if n_sites == 0:
         raise AnalysisError('apply_unitary_protocol: the decompose strategy no longer calls apply_unitaries on the caller args')
+    # "cannot tell" (NotImplemented: try the next strategy) versus "not unitary" (None: stop): lacking a decomposition only means cannot tell
+    sd = pm.defs.get('_strat_apply_unitary_from_decompose')
+    if sd is None:
+        raise AnalysisError('_strat_apply_unitary_from_decompose vanished')
+    arms = [i for i in ast.walk(sd) if isinstance(i, ast.If) and isinstance(i.test, ast.Compare) and isinstance(i.test.ops[0], ast.Is)
+            and isinstance(i.test.comparators[0], ast.Constant) and i.test.comparators[0].value is None]
+    if not arms:
+        raise AnalysisError('_strat_apply_unitary_from_decompose: the no-decomposition arm vanished')
+    rets = [r for r in arms[0].body if isinstance(r, ast.Return)]
+    ok = bool(rets) and isinstance(rets[0].value, ast.Name) and rets[0].value.id == 'NotImplemented'
+    ctx.ob('C04.b3', 'cirq.protocols.apply_unitary_protocol._strat_apply_unitary_from_decompose:no-decomposition-defers', ok,
+           '' if ok else 'a value without a decomposition makes the strategy answer None ("has no unitary") instead of NotImplemented ("ask the next strategy"): for more than '
+           'four qubits the decompose strategy runs before _unitary_, so a 5-qubit MatrixGate can no longer be applied although it has a unitary', pm.rel, arms[0].lineno)
 
     # ------------------------------------------------------------------ C04.a
     ctx.rule('C04.a', 'has/does coherence by construction of guards: (i) _has_X_ literally True => _X_ has no give-up return; (ii) literally False => '
